@@ -39,7 +39,7 @@ func init() {
 			"position fields the restorer leaves NoPos are outside the statement (it speaks of positions the restorer assigns) and are only counted",
 			"a comment-token inversion that gofmt itself produces when the comment is spliced textually before the token is attributed to go/printer, not to dst",
 		},
-		Required: map[string]int{"configs": 7},
+		Required: map[string]int{"configs": 8},
 	})
 }
 
@@ -593,6 +593,136 @@ func runC12(c *fw.Ctx) {
 				if i < 2 {
 					c.Sample(map[string]interface{}{"case": id, "positions_compared": n})
 				}
+			})
+		}
+	}
+	// the file set a Restorer ends up with: created lazily (Fset nil), set on the Restorer, or set
+	// through a FileRestorer obtained from it (the field is the Restorer's own); files restored one
+	// after the other through the Restorer and its FileRestorers all land, disjoint, in that one set
+	for i := 0; i+1 < len(files); i += 2 {
+		if !c.Mine(i / 2) {
+			continue
+		}
+		pair := files[i : i+2]
+		for _, mode := range []string{"lazy", "set-on-restorer", "set-through-file-restorer", "file-restorer-then-restorer"} {
+			id := "fileset:" + corpus.Rel(pair[0]) + "/" + mode
+			c.Case(id, func() {
+				c.Observe("configs", "file-set-ownership")
+				var dfs []*dst.File
+				for _, p := range pair {
+					var src []byte
+					if strings.HasPrefix(p, "zoo:") {
+						src = []byte(zoo[strings.TrimPrefix(p, "zoo:")])
+					} else {
+						src = readFile(p)
+					}
+					if src == nil || len(src) > 150000 {
+						return
+					}
+					df, err := decorator.Parse(src)
+					if err != nil {
+						return
+					}
+					dfs = append(dfs, df)
+				}
+				r := decorator.NewRestorer()
+				var want *token.FileSet
+				var afs []*ast.File
+				var err error
+				restoreVia := func(k int, viaFileRestorer bool) bool {
+					var af *ast.File
+					if sig, detail := fw.Try(func() {
+						if viaFileRestorer {
+							af, err = r.FileRestorer().RestoreFile(dfs[k])
+						} else {
+							af, err = r.RestoreFile(dfs[k])
+						}
+					}); sig != "" {
+						c.Violate("restore-panic", sig, id+"\n"+detail, "")
+						return false
+					}
+					if err != nil {
+						return false
+					}
+					afs = append(afs, af)
+					return true
+				}
+				switch mode {
+				case "lazy":
+					r.Fset = nil
+					if !restoreVia(0, false) || !restoreVia(1, true) {
+						return
+					}
+				case "set-on-restorer":
+					want = token.NewFileSet()
+					want.AddFile("callers.go", -1, 500)
+					r.Fset = want
+					if !restoreVia(0, true) || !restoreVia(1, false) {
+						return
+					}
+				case "set-through-file-restorer":
+					want = token.NewFileSet()
+					fr := r.FileRestorer()
+					fr.Fset = want
+					var af *ast.File
+					if sig, detail := fw.Try(func() { af, err = fr.RestoreFile(dfs[0]) }); sig != "" {
+						c.Violate("restore-panic", sig, id+"\n"+detail, "")
+						return
+					}
+					if err != nil {
+						return
+					}
+					afs = append(afs, af)
+					if !restoreVia(1, false) {
+						return
+					}
+				default:
+					r.Fset = nil
+					if !restoreVia(0, true) || !restoreVia(1, false) {
+						return
+					}
+				}
+				if r.Fset == nil {
+					c.Violate("file-set-ownership", "file-set-ownership:restorer-has-no-file-set:"+mode, id+": after two restores Restorer.Fset is still nil: the positions of the restored files cannot be resolved through the Restorer", "")
+					return
+				}
+				if want != nil && r.Fset != want {
+					c.Violate("file-set-ownership", "file-set-ownership:replaced:"+mode, id+": the Restorer no longer holds the file set it was given", "")
+					return
+				}
+				var tfs []*token.File
+				for k, af := range afs {
+					tf := r.Fset.File(af.Package)
+					if tf == nil {
+						c.Violate("file-set-ownership", "file-set-ownership:file-not-in-restorer-set:"+mode, fmt.Sprintf("%s: restored file #%d (package keyword at %d) is not registered in Restorer.Fset", id, k, af.Package), "")
+						return
+					}
+					tfs = append(tfs, tf)
+				}
+				if tfs[0] == tfs[1] {
+					c.Violate("file-set-ownership", "file-set-ownership:files-overlap:"+mode, fmt.Sprintf("%s: both restored files resolve to the same registered file [%d,+%d] of Restorer.Fset", id, tfs[0].Base(), tfs[0].Size()), "")
+					return
+				}
+				lo0, hi0, lo1, hi1 := tfs[0].Base(), tfs[0].Base()+tfs[0].Size(), tfs[1].Base(), tfs[1].Base()+tfs[1].Size()
+				if lo1 <= hi0 && lo0 <= hi1 {
+					c.Violate("files-overlap", "files-overlap:"+mode, fmt.Sprintf("%s: [%d,%d] and [%d,%d] overlap", id, lo0, hi0, lo1, hi1), "")
+					return
+				}
+				// every position of both files lies in its own registered file
+				for k, af := range afs {
+					bad := ""
+					allPositions(reflect.ValueOf(af), map[uintptr]bool{}, false, func(p token.Pos, where string) {
+						if p.IsValid() && bad == "" && r.Fset.File(p) != tfs[k] {
+							bad = where
+						}
+					}, "")
+					if bad != "" {
+						c.Violate("pos-out-of-file", "pos-out-of-file:"+bad+":"+mode, fmt.Sprintf("%s: file #%d: %s does not lie in the file registered for it", id, k, bad), "")
+						return
+					}
+				}
+				c.Count("file_set_ownership_checked", 1)
+				c.Nontrivial(id)
 			})
 		}
 	}
